@@ -30,13 +30,16 @@ ASSUMPTIONS = ['oracle: the model re-implemented from its definition and differe
 MIN_REACH = {'fitting:jacobian': 1, 'fitting:lmfit_jacobian': 1, 'fitting:covar_errors': 1, 'fitting:errors': 1,
              'fitting:do_lmfit': 1}
 MIN_COUNTERS = {'contract_Cmatrix': 10, 'contract_Bmatrix': 5, 'contract_component_errors': 10, 'component_shape_errors_judged': 5, 'contract_jacobian': 50, 'contract_lmfit_jacobian': 50, 'contract_covar_errors': 50,
-                'sigma_entries_judged': 100}
+                'sigma_entries_judged': 100, 'noise_model_selection_judged': 20, 'insitu_priorized_fits': 5}
 
 _OBS = None
 _installed = False
 _orig = {}
 NAMES = fisher.NAMES
 EVERY = 1           # in-situ thinning for large islands (set by other properties)
+
+
+EXPECT_COV = None      # docov selected by the caller of the finder entry point currently running (None: not known)
 
 
 def set_obs(o):
@@ -157,6 +160,14 @@ def post_covar_errors(params, data, errs, B, C, result):
     if o is None:
         return True
     comps, free = _unpack(result)
+    if EXPECT_COV is not None:
+        # "the noise/covariance model": the one the caller of the finder selected with docov
+        o.count('noise_model_selection_judged')
+        o.see('noise_model_selected', 'covariance' if EXPECT_COV else 'white')
+        used = (B is not None) or (C is not None)
+        if used != EXPECT_COV:
+            o.violate('errors_from_a_noise_model_that_was_not_selected', dict(
+                _describe(comps, free), docov_selected=EXPECT_COV, B_given=B is not None, C_given=C is not None))
     if not any(free):
         return True
     data = np.asarray(data)
@@ -434,6 +445,31 @@ def install():
                 _OBS.count('contract_component_errors_monitor_fault')
         return out
     sfm.SourceFinder.result_to_components = result_to_components
+    # which noise model did the caller select?  recorded at the public entry points, judged where the errors are computed
+    for meth in ('find_sources_in_image', 'priorized_fit_islands'):
+        def make(orig_m):
+            import functools
+            import inspect
+            sig = inspect.signature(orig_m)
+
+            @functools.wraps(orig_m)
+            def entry(self, *a, **kw):
+                global EXPECT_COV
+                old = EXPECT_COV
+                try:
+                    ba = sig.bind(self, *a, **kw)
+                    ba.apply_defaults()
+                    # a finder that already holds an image keeps the options it was loaded with (documented: "don't
+                    # reload already loaded data"), so only a fresh finder's argument is the selection in force
+                    EXPECT_COV = bool(ba.arguments.get('docov', True)) if self.global_data.img is None else None
+                except Exception:
+                    EXPECT_COV = None
+                try:
+                    return orig_m(self, *a, **kw)
+                finally:
+                    EXPECT_COV = old
+            return entry
+        setattr(sfm.SourceFinder, meth, make(getattr(sfm.SourceFinder, meth)))
     _installed = True
 
 
@@ -455,6 +491,9 @@ def _rand_comp(rng, shape, special_theta=None):
     sx, sy = (s_small * r, s_small) if rng.random() < 0.6 else (s_small, s_small * r)
     theta = float(rng.uniform(-180, 180)) if special_theta is None else float(special_theta)
     amp = float(rng.choice([-1, 1]) * 10 ** rng.uniform(-3, 3))
+    if rng.random() < 0.3:
+        # image units are arbitrary: uJy or nJy sources in a Jy/beam image, count images
+        amp = float(rng.choice([-1, 1]) * 10 ** rng.uniform(-10, 9))
     return {'amp': amp, 'xo': float(rng.uniform(0.5, shape[0] - 1.5)), 'yo': float(rng.uniform(0.5, shape[1] - 1.5)),
             'sx': sx, 'sy': sy, 'theta': theta}
 
@@ -572,6 +611,21 @@ def run(case):
                         noise = render.correlated_noise(nrng, tuple(t['shape']), sgm)
                     rows = c01.run_finder(t, img + noise, h, sgm, sc)
                     o.count('insitu_fits')
+                    if k % 2 == 0:
+                        # the same image measured again by priorized fitting from the blind catalogue, with its own choice of
+                        # noise model: derivative, sigma, err_* and noise-model contracts all armed on that path too
+                        import logging
+                        from AegeanTools.source_finder import SourceFinder
+                        fn = os.path.join(sc, 'im.fits')
+                        lg = logging.getLogger('aegmon-null')
+                        srcs = SourceFinder(log=lg).find_sources_in_image(fn, rms=float(sgm), bkg=0.0, cores=1, docov=t['docov'])
+                        if srcs:
+                            dc2 = bool(rng.random() < 0.5)
+                            stage = int(rng.integers(1, 4))
+                            SourceFinder(log=lg).priorized_fit_islands(fn, catalogue=srcs, rms=float(sgm), bkg=0.0, cores=1,
+                                                                       docov=dc2, stage=stage)
+                            o.count('insitu_priorized_fits')
+                            o.count('insitu_priorized_fits_docov_%s' % dc2)
                     o.n_nontrivial += 1
                 o.sample = {'insitu_fits': case['n'], 'last_truth': truth, 'components': len(rows)}
             finally:
